@@ -246,6 +246,23 @@ class Render:
             self.stmt(["N", d[1], d[2]])
         elif t == "ty":
             self.stmt(["T", d[1], d[2]])
+        elif t == "st":
+            _, n, embeds, fields, ftyp = d
+            self.w("type ")
+            self.id(n)
+            self.w(" struct {")
+            for star, q, ty in embeds:
+                self.w("\n\t" + ("*" if star else ""))
+                if q is not None:
+                    self.id(q)
+                    self.w(".")
+                self.id(ty)
+            if fields:
+                self.w("\n\t")
+                self.ids(fields)
+                self.w(" ")
+                self.ids(ftyp)
+            self.w("\n}")
         elif t == "fn":
             _, fp, n, params, ptyp, results, rtyp, bp, body = d[:9]
             variadic = len(d) > 9 and d[9]
@@ -420,6 +437,16 @@ class Ser:
             self.a("ty")
             self.id(d[1])
             self.id(d[2])
+        elif t == "st":
+            _, n, embeds, fields, ftyp = d
+            self.a("st")
+            self.id(n)
+            self.a(len(embeds))
+            for star, q, ty in embeds:
+                self.ids([q] if q is not None else [])
+                self.id(ty)
+            self.ids(fields)
+            self.ids(ftyp)
         elif t == "fn":
             _, fp, n, params, ptyp, results, rtyp, bp, body = d[:9]
             self.a("fn", fp.p)
@@ -535,6 +562,11 @@ def gtype(n, under="int"):
     return ["ty", I(n), I(under)]
 
 
+def gstruct(n, embeds, fields=()):
+    """embeds: [(star, qualifier or None, type name)]; fields: names of one grouped int field declaration"""
+    return ["st", I(n), [(st, I(q) if q else None, I(t)) for st, q, t in embeds], [I(f) for f in fields], [I("int")] if fields else []]
+
+
 def func(n, params, body, results=None, ret=True, variadic=False):
     return ["fn", Pos(), I(n), [I(p) for p in params], [I("int")] if params else [],
             [I(r) for r in (results or [])], [I("int")] if (ret or results) else [], Pos(), body, variadic]
@@ -609,6 +641,12 @@ def deterministic():
     P.append(("det-forward-globals", "ms", [use_fn(), gvar(["a"], [use("b")]), gconst(["b"], [lit(1)]), gtype("T"),
                                             gvar(["t"], [call(use("T"), [use("b")])], typ="T"),
                                             func("main", [], [est(call(use("use"), [use("a"), call(use("int"), [use("t")])]))], ret=False)]))
+    P.append(("det-struct-embedded", "ms", [imp("bytes"), imp("strings", "str"), use_fn(), gtype("Base"),
+                                            gstruct("A", [(False, None, "Base")], ["n"]),
+                                            gstruct("B", [(True, None, "Base"), (False, "bytes", "Buffer"), (True, "str", "Builder"),
+                                                          (False, None, "A")], ["x", "y"]),
+                                            gstruct("C", [(True, None, "B")]),
+                                            func("main", [], [est(call(use("use"), [lit(1)]))], ret=False)]))
     P.append(("det-if-for", "ms", [use_fn(), func("main", [], [
         define(["x"], [lit(1)]),
         if_([define(["x"], [add(use("x"), lit(1))])], use("x"), [define(["x"], [add(use("x"), lit(2))]), usecall(["x"])], [usecall(["x"])]),
@@ -1127,9 +1165,40 @@ class Gen:
             else:
                 globs.append(gtype(n))
                 self.note("decl:type")
+        # struct types with embedded fields of every shape: T, *T, pkg.T, *pkg.T (declared after the types they embed)
+        structs = []
+        for _ in range(self.rng.below(3)):
+            cand = [n for n in self.POOL if n not in pk and n not in ("nil", "println", "string", "iota")]
+            if not cand:
+                break
+            sn = self.pick(cand)
+            tys = [n for n, v in pk.items() if v[0] in ("type", "stype")]
+            pkgs = [n for n, v in pk.items() if v[0] == "pkg"]
+            embeds, seen = [], set()
+            for _ in range(1 + self.rng.below(3)):
+                if pkgs and self.rng.below(3) == 0:
+                    q, t = self.pick(pkgs), "NumError"
+                    pk[q][1] = True
+                else:
+                    if not tys:
+                        continue
+                    q, t = None, self.pick(tys)
+                if t in seen:
+                    continue
+                seen.add(t)
+                star = self.rng.below(2) == 0
+                embeds.append((star, q, t))
+                self.note("decl:embedded:%s%s" % ("*" if star else "", "pkg.T" if q else "T"))
+            if not embeds:
+                continue
+            fields = [f for f in ("fa", "fb")[: self.rng.below(3)] if f not in seen]
+            pk[sn] = ["stype", True, 0]
+            structs.append(gstruct(sn, embeds, fields))
+            self.note("decl:struct")
         for i in range(len(globs) - 1, 0, -1):
             j = self.rng.below(i + 1)
             globs[i], globs[j] = globs[j], globs[i]
+        globs += structs
         funcs = []
         for _ in range(self.rng.below(4)):
             cand = [n for n in self.POOL if n not in pk and n not in ("nil", "println", "string", "iota")]
